@@ -35,7 +35,7 @@ one was found and `no-failing-input-found` otherwise (§2.4).
 |----|-------------------------------|-----|-----------------------|
 | C01 | generated models + `Fitter` + closed-form least squares (`Props/C01Noise`); 13 | recovery runs with recorded optimiser calls; fixed-contact-point fits vs the closed form at exact rationals | ≈ 10 s |
 | C02 | generated ℝ/Float renderings + hand spec; 31 | regeneration; Float rendering vs numpy (ulp) | ≈ 5 s |
-| C03 C06 C09 C10 | object model `Indent` (+`Rater`), incl. the E(δ)-scan cache (`Props/C03Scan`); 9 + 5 + 10 + 4 | history engine (random + directed histories incl. `compute_emodulus_mindelta`, in-place edits, fresh-object oracle) | ≈ 30 s each |
+| C03 C06 C09 C10 | object model `Indent` (+`Rater`), incl. the E(δ)-scan cache (`Props/C03Scan`), the pipeline decision (`Props/C09Pipeline`) and keyword order (`Props/C10Order`); 9 + 5 + 14 + 7 | history engine (random + directed histories incl. `compute_emodulus_mindelta`, in-place edits, fresh-object oracle) | ≈ 30 s each |
 | C04 C05 C11 | `Residual`, `Fitter` (C05 also audits `c05_scan_sample_count` of the object model); 12 + 12 + 12 | exact-rational correspondence with recorded θ̂ / index sets; paired fits | 3–7 s |
 | C07 | `Preproc`; 21 | step-by-step exact-rational correspondence | ≈ 20 s |
 | C08 | `Poc`; 17 | exact-rational correspondence + recorded optimiser inputs | ≈ 60 s |
@@ -133,7 +133,7 @@ corrected with `gcf_k` turned out to violate C04 and C11 once the generator cove
 
 ### 9.5 Seeded changes (independent sub-agents, property text + scratch worktree only)
 
-One hundred and fifty changes are kept under `seeded/<id>/` (`patch.diff`, `demo.py`, `meta.json`; each
+One hundred and seventy-two changes are kept under `seeded/<id>/` (`patch.diff`, `demo.py`, `meta.json`; each
 confirmed by me in a scratch worktree: demo passes on HEAD, fails with the change, 176 tests pass with it): forty
 from the first round (two per property), ten from a second round of eight agents, seventeen from a third round
 of twelve agents, thirty-one from a fourth round of twenty agents that were asked to avoid the most obvious
@@ -143,7 +143,11 @@ calls / objects / processes, numerical edge cases, error paths followed by a ret
 effects that only show in a later operation, and twenty-eight from a sixth round of twenty agents that were told
 to stay away from caches and narrowed except clauses and to look at boundaries ordinary data do not hit, unusual
 but legitimate array properties and element types, units and magnitudes, argument type variety, text details and
-rarely used entry points; forty-eight further submissions duplicated earlier changes and were not kept.  C04c, C11a, C11b and C11c were re-expressed on the tree in which the contact-point limits are corrected
+rarely used entry points, and twenty-two from a seventh round of twenty agents that were given the list of
+everything tried so far and asked for changes of another kind (formula details that are right for the default
+parameters only, the second / third segment, options that are accepted but ignored, interactions of two settings,
+metadata and folder handling, saturated or incomplete data, documented return conventions); sixty-six further
+submissions duplicated earlier changes and were not kept.  C04c, C11a, C11b and C11c were re-expressed on the tree in which the contact-point limits are corrected
 with `gcf_k`, C10g on the tree in which `compute_poc` converts its input to floating point, C16g and C16i on the
 tree in which rating containers store `range_x` as plain floats, and re-confirmed.
 Two earlier seeds were retired: C08f (in-place normalisation that failed for integer arrays) is harmless since
@@ -151,8 +155,12 @@ Two earlier seeds were retired: C08f (in-place normalisation that failed for int
 broke the property because `available()` handed out its cached list; after the repair cbd93cb the change is
 harmless (its demonstration passes).  Neither is counted any more.
 `tools/run_seeds.py` applies each to `/repo`, runs the quick check of its property, undoes it and
-writes `seeded/RESULTS.json`.  All of them are reported by `./check <property> --tier quick` with a
-concrete failing input (none only as `no-failing-input-found`).
+writes `seeded/RESULTS.json`.  All of them are reported by `./check <property> --tier quick`; all but one with a
+concrete failing input.  The exception is C08j (`poc_deviation_from_baseline` tests `|force − baseline|` instead of
+the signed deviation): it keeps every returned index valid and invariant and leaves clean model curves untouched –
+what it changes is the estimate on curves with a descending baseline, for which the property states no accuracy –
+so no input violates the statement; the correspondence with the Lean model of the estimator breaks and the check
+reports it as `no-failing-input-found`, as designed for a property that is no longer shown to hold.
 
 | seed | change | caught by |
 |------|--------|-----------|
@@ -235,6 +243,21 @@ Checks that had to be strengthened because a seed was first missed or reported o
   that mix long and short curves so that ratings of exactly 0 and non-trivial ratings both occur – C20g).  A side
   remark of one agent (an interval given with numpy scalars makes the whole rating container unreadable) was
   reproduced, repaired (280e6bf) and is covered by fit variant N of `./check C16`.
+
+* seventh round (10 of 22 were first missed, 4 more had no failing input): C04/C05 (curves recorded with a dwell:
+  three segments, fits of segment 2 – C04g, C05i; minimisations that lmfit gives up on, with a budget of 2–6
+  function evaluations – C04f), C07 (deflection offsets that make the whole raw force negative or far above zero –
+  C07i), C09 (the scikit-learn reference also for feature subsets with training sets loaded from disk, and a fitted
+  curve too short for the size criterion: a criterion that is not selected must not exclude the curve – C09g), C15
+  (every infinite entry is compared with twice the largest finite magnitude of its column, computed from the
+  returned rows after re-deriving which rows are kept and what was imputed – C15g/h; the first version of this
+  oracle matched rows greedily and raised a false alarm when an imputed value was itself infinite: corrected before
+  it was committed), C16 (a three-segment curve stored and loaded – C16k), C17 (twin datasets that differ only in
+  `gcf_k`, or in the name of the abscissa column next to an unrelated `tip position` column, must have equal
+  features – C17g/h), C19 (interval bounds that are not on a nanometre grid must survive a setup run in which both
+  prompts are skipped; a folder that only looks like a training set must be asked for again – C19k/l), C20 (folders
+  below a dot-named directory and folders named by a relative path through `..` – C20h).  C08k was submitted for C07
+  and is kept under C08 (the fallback is the middle of the clipped approach part).
 
 ### 9.6 Observations that are not findings
 
